@@ -25,7 +25,9 @@ R = Registry(
         "fairy when attempts run out; get_connection() reuses a connection only after all three staleness "
         "tests and closes before reconnecting; invalidate/__connect/__close null the connection in the "
         "right order; overflow counter and reset-failure pairing (shared with C25-R2, C24-R1); "
-        "Pool._invalidate_time has a single writer.  Logging calls are assumed not to raise."
+        "Pool._invalidate_time has a single writer; the record's generation stamp (starttime) is taken "
+        "before the creator is invoked, never re-taken afterwards, has two writers and shares its clock with "
+        "the invalidation timestamps (C26-R7).  Logging calls are assumed not to raise."
     ),
     not_decided=(
         "the ledger of open/closed DBAPI connections over arbitrary fault histories; exceptions raised by "
@@ -345,6 +347,76 @@ def r6(ctx):
     ctx.require(f"{POOL}::Pool._invalidate" in seen, "Pool._invalidate no longer writes _invalidate_time")
 
 
+STARTTIME_WRITERS = {
+    f"{POOL}::_ConnectionRecord.__init__": "initial value 0: older than any invalidation (no connection yet)",
+    f"{POOL}::_ConnectionRecord.__connect": "generation stamp of the DBAPI connection being created",
+}
+
+
+def _clock_calls(node):
+    """callee names of argument-less calls into the `time` module inside `node` (the clock that is read)."""
+    return {call_name(c) for c in calls_in(node)
+            if not c.args and not c.keywords and (call_name(c) or "").split(".")[0] in ("time", "_time")}
+
+
+@R.rule("C26-R7", floor=5, template="T-PATH",
+        desc="generation stamp: _ConnectionRecord.starttime is written only by __init__ (0) and __connect; in "
+             "__connect the clock is read into starttime BEFORE the creator is invoked and not again afterwards (a "
+             "connect that overlaps a pool invalidation must count as older than it); starttime, "
+             "Pool._invalidate_time and _soft_invalidate_time are read from the same clock")
+def r7(ctx):
+    ix = ctx.index
+    sites = [x for x in attr_store_sites(ix, "starttime")]
+    ctx.require(sites, "no store to `starttime`")
+    seen = {}
+    for owner, d, st, m in sites:
+        seen.setdefault(owner, (d, st, m))
+    for owner, (d, st, m) in sorted(seen.items()):
+        ctx.check(owner in STARTTIME_WRITERS, f"{owner}:starttime",
+                  f"`{unparse(st).splitlines()[0]}` re-stamps a connection record outside __connect: the record's age no "
+                  "longer says when its DBAPI connection was begun, so `_invalidate_time > starttime` / pool_recycle "
+                  "can keep a connection that predates a pool invalidation",
+                  STARTTIME_WRITERS.get(owner, ""), f"{m.path}:{st.lineno}", nontrivial=False)
+    fc = ctx.func(f"{POOL}::_ConnectionRecord.__connect")
+    ctx.require(fc.key in seen, "_ConnectionRecord.__connect no longer stamps starttime")
+    g = rcfg(ctx, fc)
+    creator = calls_ending(g, "_invoke_creator")
+    ctx.require(creator, "no _invoke_creator() call in __connect")
+    stamps = [n for d, t, st in attr_stores(fc.node) if d == "self.starttime" and _clock_calls(st)
+              for n in g.nodes_for(st)]
+    ctx.require(stamps, "__connect does not read a clock into self.starttime")
+    w = None
+    for n in creator:
+        w = w or g.always_preceded(n, stamps)
+    ctx.check(w is None, fc.key + ":stamp-before-creator",
+              "the creator (DBAPI connect) can run before starttime is stamped: a pool-wide invalidation that happens "
+              "while the connect is in flight gets an _invalidate_time older than the stamp, so the connection that "
+              "predates the invalidation is never recycled and is handed out again",
+              "self.starttime = <clock> dominates pool._invoke_creator(self)", fc.loc, w)
+    after = g.reachable([b for n in creator for b, lab in g.succ[n] if lab != "exc"], edge_ok=no_exc)
+    late = [n for n in stamps if n in after]
+    ctx.check(not late, fc.key + ":no-restamp-after-creator",
+              "starttime is stamped (again) after the creator returned: a connect that overlapped a pool invalidation "
+              "looks younger than the invalidation and survives it",
+              "no clock read into starttime after the creator call", fc.loc,
+              g.describe_path(late) if late else None)
+    # same clock on both sides of every comparison
+    clocks = {}
+    for owner, d, st, m in sites + attr_store_sites(ix, "_invalidate_time") + attr_store_sites(ix, "_soft_invalidate_time"):
+        cs = _clock_calls(st)
+        if cs:
+            clocks.setdefault(frozenset(cs), []).append(f"{owner} ({d})")
+    fget = ctx.func(f"{POOL}::_ConnectionRecord.get_connection")
+    for t in ast.walk(fget.node):
+        if isinstance(t, ast.BinOp) and "starttime" in _attrs(t) and _clock_calls(t):
+            clocks.setdefault(frozenset(_clock_calls(t)), []).append(f"{fget.key} (age)")
+    ctx.require(clocks, "no clock reads found for starttime / _invalidate_time / _soft_invalidate_time")
+    ctx.check(len(clocks) == 1, f"{POOL}::generation-clock",
+              "the timestamps compared by get_connection() come from different clocks: "
+              + "; ".join(f"{'/'.join(sorted(k))}: {', '.join(v)}" for k, v in sorted(clocks.items(), key=lambda kv: sorted(kv[0]))),
+              "one clock: " + "/".join(sorted(next(iter(clocks)))) + f" at {sum(len(v) for v in clocks.values())} sites", fc.loc)
+
+
 # ---------------------------------------------------------------------- self-test battery
 R.mutant("checkout-no-checkin-failed", POOL,
          sub("        except BaseException as err:\n            with util.safe_reraise():\n                rec._checkin_failed(err, _fairy_was_created=False)\n",
@@ -414,3 +486,26 @@ R.mutant("benign-get-connection-reorder-tests", POOL,
                    "        elif self.__pool._invalidate_time > self.starttime:\n            self.__pool.logger.info(\n                \"Connection %r invalidated due to local soft invalidation; \"")), None)
 R.mutant("benign-checkout-extra-logging", POOL,
          sub("            fairy._connection_record.fresh = False\n            try:\n", "            fairy._connection_record.fresh = False\n            pool.logger.debug(\"checkout attempt %d\", attempts)\n            try:\n"), None)
+
+# ---- added by str-j (adversarial seeds C26_1, C26_2)
+# seed C26_1: `try: record.close() finally: self._dec_overflow()` flattened
+R.mutant("r5-return-conn-dec-overflow-not-in-finally", "pool/impl.py",
+         sub("            try:\n                record.close()\n            finally:\n                self._dec_overflow()\n",
+             "            record.close()\n            self._dec_overflow()\n"), "C26-R5")
+R.mutant("benign-r5-return-conn-dec-overflow-except-reraise", "pool/impl.py",
+         sub("            try:\n                record.close()\n            finally:\n                self._dec_overflow()\n",
+             "            try:\n                record.close()\n            except BaseException:\n                self._dec_overflow()\n                raise\n            else:\n                self._dec_overflow()\n"), None)
+# seed C26_2: the generation stamp is taken after the creator returned
+_STAMP = "            self.starttime = time.time()\n            self.dbapi_connection = connection = pool._invoke_creator(self)\n"
+R.mutant("connect-stamps-starttime-after-creator", POOL,
+         sub(_STAMP, "            self.dbapi_connection = connection = pool._invoke_creator(self)\n            self.starttime = time.time()\n"), "C26-R7")
+R.mutant("connect-restamps-starttime-when-fresh", POOL,
+         sub("            pool.logger.debug(\"Created new connection %r\", connection)\n            self.fresh = True\n",
+             "            pool.logger.debug(\"Created new connection %r\", connection)\n            self.fresh = True\n            self.starttime = time.time()\n"), "C26-R7")
+R.mutant("get-connection-restamps-after-connect", POOL,
+         sub("            self.info.clear()\n\n            self.__connect()\n", "            self.info.clear()\n\n            self.__connect()\n            self.starttime = time.time()\n"), "C26-R7")
+R.mutant("starttime-from-monotonic-clock", POOL,
+         sub(_STAMP, "            self.starttime = time.monotonic()\n            self.dbapi_connection = connection = pool._invoke_creator(self)\n"), "C26-R7")
+R.mutant("benign-connect-stamp-before-try", POOL,
+         sub("        self.dbapi_connection = None\n        try:\n            self.starttime = time.time()\n",
+             "        self.dbapi_connection = None\n        self.starttime = now = time.time()\n        try:\n            pool.logger.debug(\"connecting at %s\", now)\n"), None)
